@@ -606,6 +606,112 @@ class _DeMorgan(ast.NodeTransformer):
         return node
 
 
+class _AnnotateLocals(ast.NodeTransformer):
+    """x = 0 -> x: int = 0,  x = [] -> x: list = []   inside functions (simple name targets, literal values)"""
+
+    def __init__(self):
+        self.depth = 0
+
+    def visit_FunctionDef(self, node):
+        self.depth += 1
+        self.generic_visit(node)
+        self.depth -= 1
+        return node
+
+    def visit_ClassDef(self, node):
+        d, self.depth = self.depth, 0
+        self.generic_visit(node)
+        self.depth = d
+        return node
+
+    def visit_Assign(self, node: ast.Assign):
+        if self.depth and len(node.targets) == 1 and isinstance(node.targets[0], ast.Name):
+            v = node.value
+            ann = None
+            if isinstance(v, ast.Constant) and type(v.value) is int:
+                ann = "int"
+            elif isinstance(v, ast.List) and not v.elts:
+                ann = "list"
+            elif isinstance(v, ast.Constant) and type(v.value) is bool:
+                ann = "bool"
+            if ann:
+                return ast.AnnAssign(target=ast.Name(id=node.targets[0].id, ctx=ast.Store()), annotation=ast.Name(id=ann, ctx=ast.Load()), value=v, simple=1)
+        return node
+
+
+class _NoElseReturn(ast.NodeTransformer):
+    """if c: ...; return a  else: REST   ->   if c: ...; return a   REST      (pylint no-else-return / no-else-raise / no-else-continue)"""
+
+    def _flatten(self, stmts):
+        out = []
+        for st in stmts:
+            if isinstance(st, ast.If) and st.orelse and st.body and isinstance(st.body[-1], (ast.Return, ast.Raise, ast.Continue, ast.Break)):
+                tail = self._flatten(st.orelse)
+                out.append(ast.If(test=st.test, body=st.body, orelse=[]))
+                out.extend(tail)
+            else:
+                out.append(st)
+        return out
+
+    def generic_visit(self, node):
+        super().generic_visit(node)
+        for field in ("body", "orelse", "finalbody"):
+            lst = getattr(node, field, None)
+            if isinstance(lst, list) and lst and isinstance(lst[0], ast.stmt):
+                setattr(node, field, self._flatten(lst))
+        return node
+
+
+class _LiteralCtor(ast.NodeTransformer):
+    """[] -> list(),  {} -> dict()   (empty displays only, in Load context)"""
+
+    def visit_List(self, node: ast.List):
+        if not node.elts and isinstance(node.ctx, ast.Load):
+            return ast.Call(func=ast.Name(id="list", ctx=ast.Load()), args=[], keywords=[])
+        self.generic_visit(node)
+        return node
+
+    def visit_Dict(self, node: ast.Dict):
+        if not node.keys:
+            return ast.Call(func=ast.Name(id="dict", ctx=ast.Load()), args=[], keywords=[])
+        self.generic_visit(node)
+        return node
+
+
+class _AppendToAug(ast.NodeTransformer):
+    """x.append(y) -> x += [y]   for a plain local name x (statement position)"""
+
+    def visit_Expr(self, node: ast.Expr):
+        v = node.value
+        if isinstance(v, ast.Call) and isinstance(v.func, ast.Attribute) and v.func.attr == "append" and isinstance(v.func.value, ast.Name) and len(v.args) == 1 and not v.keywords:
+            return ast.AugAssign(target=ast.Name(id=v.func.value.id, ctx=ast.Store()), op=ast.Add(), value=ast.List(elts=[v.args[0]], ctx=ast.Load()))
+        return node
+
+
+def _swap_independent_assigns(tree: ast.Module) -> None:
+    """a = e1; b = e2 -> b = e2; a = e1   for adjacent assignments of call-free expressions to distinct names that do not mention each other"""
+    def simple(e):
+        return not any(isinstance(n, (ast.Call, ast.Yield, ast.YieldFrom, ast.Await, ast.NamedExpr)) for n in ast.walk(e))
+
+    def names(e):
+        return {n.id for n in ast.walk(e) if isinstance(n, ast.Name)}
+
+    for holder in ast.walk(tree):
+        for field in ("body", "orelse", "finalbody"):
+            lst = getattr(holder, field, None)
+            if not (isinstance(lst, list) and lst and isinstance(lst[0], ast.stmt)) or isinstance(holder, (ast.Module, ast.ClassDef)):
+                continue
+            i = 0
+            while i + 1 < len(lst):
+                a, b = lst[i], lst[i + 1]
+                if isinstance(a, ast.Assign) and isinstance(b, ast.Assign) and len(a.targets) == 1 and len(b.targets) == 1 and isinstance(a.targets[0], ast.Name) and isinstance(b.targets[0], ast.Name) \
+                        and a.targets[0].id != b.targets[0].id and simple(a.value) and simple(b.value) and a.targets[0].id not in names(b.value) and b.targets[0].id not in names(a.value):
+                    lst[i], lst[i + 1] = b, a
+                    i += 2
+                else:
+                    i += 1
+
+
 def _transformer(cls):
     def apply(tree: ast.Module) -> None:
         new = cls().visit(tree)
@@ -641,6 +747,11 @@ def generic_equiv(files: List[str]) -> List[Variant]:
             ("keys-iter", _transformer(_KeysIter), "for k in d.keys() -> for k in d"),
             ("commute-const", _transformer(_CommuteConst), "i + 1 -> 1 + i"),
             ("de-morgan", _transformer(_DeMorgan), "not (a and b) -> not a or not b"),
+            ("annotate-locals", _transformer(_AnnotateLocals), "x = 0 -> x: int = 0 inside functions"),
+            ("no-else-return", _transformer(_NoElseReturn), "else after return/raise/continue/break removed"),
+            ("literal-ctor", _transformer(_LiteralCtor), "[] -> list(), {} -> dict()"),
+            ("append-to-aug", _transformer(_AppendToAug), "x.append(y) -> x += [y]"),
+            ("swap-assigns", _fix(_swap_independent_assigns), "adjacent independent assignments exchanged"),
         ):
             out.append(Variant(f"equiv-{tag}-{short}", [(f, fn)], "nofire", note=note))
     return out
